@@ -118,6 +118,21 @@ def wide_consts(w=40):
 
 
 @design
+def const_fold_widths():
+    """all-constant nets of DIFFERENT widths that fold to the same integer in one pass"""
+    a, = _io([4])
+    k4 = pyrtl.Const(12, bitwidth=4) & pyrtl.Const(6, bitwidth=4)      # 4, four bits
+    k3 = pyrtl.Const(7, bitwidth=3) ^ pyrtl.Const(3, bitwidth=3)       # 4, three bits
+    k6 = pyrtl.Const(33, bitwidth=6) | pyrtl.Const(4, bitwidth=6)      # 37, six bits
+    k1 = pyrtl.Const(1, bitwidth=1) & pyrtl.Const(1, bitwidth=1)       # 1, one bit
+    k2 = pyrtl.Const(2, bitwidth=2) ^ pyrtl.Const(3, bitwidth=2)       # 1, two bits
+    _out(a + k4, 'out0')
+    _out(pyrtl.concat(k3, a), 'out1')
+    _out(k6 ^ a, 'out2')
+    _out(pyrtl.concat(k1, k2, k3), 'out3')
+
+
+@design
 def const_select(w=3):
     """muxes whose select operand is a constant (elaboration-time flags), both polarities and both forms"""
     a, b = _io([w, w])
@@ -414,6 +429,10 @@ def repeat_args(w=2):
     _out((b * b)[:w], 'out5')
     x = ~b
     _out(pyrtl.concat(x, b, x), 'out6')
+    # every two-input primitive with both inputs tied to one wire (a nand used as an inverter, ...)
+    _out(a.nand(a), 'out7')
+    _out(pyrtl.concat(a & a, a | a, a ^ a), 'out8')
+    _out(pyrtl.concat(a < a, a > a, a == a, (a - a)[:w]), 'out9')
 
 
 @design
@@ -533,6 +552,7 @@ def family(tier='quick', seed=0):
     add('reg_swap', w=2)
     add('reg_chain')
     add('const_select')
+    add('const_fold_widths')
     add('regs_same_next')
     add('reg_chain', w=1, n=3)
     add('reg_const_next', w=2)
